@@ -1,6 +1,7 @@
 package pcv
 
 import (
+	"fmt"
 	"go/types"
 
 	"golang.org/x/tools/go/ssa"
@@ -100,6 +101,7 @@ func runC03(c *Ctx) {
 
 	// (1)
 	s.checkStopSetsFlagFirst(c, "noRestart-before-any-stop")
+	s.checkShutdownFlagsAllFirst(c, "shutdown-flags-all-first")
 
 	// (2)
 	rSnap := c.Rule("snapshot-under-lock", "in the shutdown function every access to runningProcesses (including synchronously invoked closures) and the call of the stop/wait phase happen with runProcMutex held, and the lock is not released before return")
@@ -320,6 +322,8 @@ func runC03(c *Ctx) {
 		c.Bad(rAtomic, "critical-section:none", "", "the launch is not performed inside a stateMtx critical section at all")
 	}
 
+	s.checkShutdownExtras(c)
+
 	// (8)
 	rAuto := c.Rule("autostart-consults-shutdown", "before the run entry is called, the process goroutine (or every automatic spawn site) reads project-level shutdown state (ctxApp or a flag stored by the shutdown function)")
 	shutState := s.shutdownStateRead(shut)
@@ -470,4 +474,178 @@ func (s *Sel) checkRunJoins(c *Ctx, ruleID string) {
 		c.Touch(g)
 		c.Check(p.Deep(done).Always(g), rule, "done:"+p.FuncKey(g), FirstPos(p, g), "every path calls waitGroup.Done", "a path of the process goroutine does not call waitGroup.Done (Run never returns)")
 	}
+}
+
+// checkShutdownExtras: rules added after the seeded-change round (see DESIGN.md section 12).
+func (s *Sel) checkShutdownExtras(c *Ctx) {
+	p := c.P
+	shut := s.shutdownFn()
+	st := p.ConstGroup("types", "ProcessState")
+
+	// (a) a failing shutdown command escalates to SIGKILL on every path
+	rKill := c.Rule("failed-shutdown-command-kills", "in the function that runs the configured shutdown command, every path on the command's error edge reaches Commander.Stop with the constant SIGKILL on Process.command (a command that could not be stopped gracefully is never left alive)")
+	n := 0
+	for _, f := range p.FuncsOfPkg("app") {
+		if !s.IsProcessMethod(f) {
+			continue
+		}
+		AllInstrs(f, func(in ssa.Instruction) {
+			call, ok := in.(*ssa.Call)
+			if !ok {
+				return
+			}
+			o := CalleeObj(&call.Call)
+			if o == nil || o.Name() != "Run" {
+				return
+			}
+			bc, isB := stripConv(ReceiverOf(&call.Call)).(*ssa.Call)
+			if !isB {
+				return
+			}
+			uses := false
+			for _, a := range bc.Call.Args {
+				if PathOf(a).LastField() == s.FShutDownCommand {
+					uses = true
+				}
+			}
+			if !uses {
+				return
+			}
+			n++
+			c.Touch(f)
+			kill := p.Deep(Site{Name: "Stop(SIGKILL)", Call: func(cc *ssa.CallCommon) bool {
+				if !sameFunc(CalleeObj(cc), s.MStop) || PathOf(ReceiverOf(cc)).LastField() != s.FCommand {
+					return false
+				}
+				k, okk := ConstInt(ArgsOf(cc)[0])
+				return okk && k == 9
+			}})
+			r := MustFollow([]Pt{after(call)}, kill, ErrNilEdge(call, false))
+			c.PathCheck(r, rKill, p.FuncKey(f), p.InstrPos(call), "a failed shutdown command is followed by SIGKILL on every path", "when the configured shutdown command fails a path returns without killing the command: it stays alive, and the shutdown (which skips the wait on a stop error) returns while it is running")
+		})
+	}
+	if n == 0 {
+		c.Bad(rKill, "none", "", "the configured shutdown command is never run")
+	}
+
+	// (b) the ordered list contains every registered instance
+	rAll := c.Rule("ordered-order-complete", "on the ordered branch of the shutdown function the list of instances is appended to directly in the callback of Project.WithProcesses called with an empty name list; the registry lookup key is the ReplicaName of the callback's parameter and the append is guarded by nothing but the success of that lookup (no process that is registered is left out, e.g. disabled or foreground ones started by hand)")
+	withProc := p.TryMethod("types", "Project", "WithProcesses")
+	okAll := false
+	var where ssa.Instruction
+	for _, in := range DirectSites(shut, CallOfFn("WithProcesses", withProc)) {
+		where = in
+		args := ArgsOf(CallCommonOf(in))
+		if len(args) != 2 {
+			continue
+		}
+		// empty list of names
+		empty := false
+		if sl, ok := args[0].(*ssa.Slice); ok {
+			if al, ok := sl.X.(*ssa.Alloc); ok {
+				if arr, ok := al.Type().(*types.Pointer).Elem().Underlying().(*types.Array); ok && arr.Len() == 0 {
+					empty = true
+				}
+			}
+		}
+		fns, _ := p.FuncValues(args[1])
+		for _, cb := range fns {
+			if len(cb.Params) < 1 {
+				continue
+			}
+			good := empty
+			nApp := 0
+			AllInstrs(cb, func(x ssa.Instruction) {
+				if _, ok := IsBuiltinCall(x, "append"); !ok {
+					return
+				}
+				nApp++
+				guards := GuardsOf(x)
+				for _, g := range guards {
+					v, val := g.BoolVal()
+					ex, isEx := v.(*ssa.Extract)
+					if !isEx || ex.Index != 1 || !val {
+						good = false
+						continue
+					}
+					lk, isLk := ex.Tuple.(*ssa.Lookup)
+					if !isLk || PathOf(lk.X).LastField() != s.FRunning {
+						good = false
+						continue
+					}
+					kp := PathOf(lk.Index)
+					if kp.LastField() != s.FReplicaName {
+						good = false
+					}
+				}
+				if len(guards) != 1 {
+					good = false
+				}
+			})
+			if good && nApp == 1 {
+				okAll = true
+			}
+		}
+	}
+	c.Check(okAll, rAll, p.FuncKey(shut), p.InstrPos(where), "every registered instance enters the ordered list", "the ordered shutdown list is not built by looking every process of the traversal up in runningProcesses (it goes through a filtered helper or an extra condition): a registered instance that the filter drops is neither stopped nor awaited, survives the shutdown and Run() hangs")
+
+	s.checkRefusalMatchesPendingStop(c, "refusal-matches-pending-stop")
+	_ = st
+}
+
+// checkRefusalMatchesPendingStop (C03, C08).
+func (s *Sel) checkRefusalMatchesPendingStop(c *Ctx, ruleID string) {
+	p := c.P
+	// (c) the refusal check of the run entry recognises the state a pending stop leaves behind
+	rRef := c.Rule(ruleID, "the status constants tested by the refusal check at the top of the run entry include the state constant that the stop core hands to the terminal function for a process stopped while Pending (otherwise the goroutine that was waiting on dependencies launches the command after the stop)")
+	requireN("StopCore", s.StopCores, 1, 1)
+	var pendingArg []string
+	for _, in := range DirectSites(s.StopCores[0], CallOfFn("Terminal", s.Terminals...)) {
+		for _, a := range ArgsOf(CallCommonOf(in)) {
+			if v, ok := ConstString(a); ok {
+				pendingArg = append(pendingArg, v)
+			}
+		}
+	}
+	var tested []string
+	nonStatus := false
+	launchD := p.Deep(s.LaunchSite)
+	for _, re := range s.RunEntries {
+		var launches []ssa.Instruction
+		AllInstrs(re, func(x ssa.Instruction) {
+			if cc, ok := x.(*ssa.Call); ok && launchD.MayAt(cc) {
+				launches = append(launches, x)
+			}
+		})
+		for _, in := range DirectSites(re, s.stopRequestRead()) {
+			call, ok := in.(*ssa.Call)
+			if !ok {
+				continue
+			}
+			// only the refusal check: a read that dominates every launch
+			dom := len(launches) > 0
+			for _, l := range launches {
+				if !DominatesInstr(in, l) {
+					dom = false
+				}
+			}
+			if !dom {
+				continue
+			}
+			if sc := call.Call.StaticCallee(); sc != nil && s.IsProcessMethod(sc) {
+				tested = append(tested, constStringArgs(call)...)
+			} else {
+				nonStatus = true // flag / context based refusal
+			}
+		}
+	}
+	okRef := nonStatus
+	for _, pa := range pendingArg {
+		for _, t := range tested {
+			if pa == t {
+				okRef = true
+			}
+		}
+	}
+	c.Check(okRef && len(pendingArg) > 0, rRef, "run-entry", FirstPos(p, s.RunEntries[0]), "refusal check and pending stop agree", fmt.Sprintf("a process stopped while Pending is left in state %v but the run entry refuses only for %v: its goroutine launches the command once the dependencies are met, although it was stopped", pendingArg, tested))
 }
